@@ -1,0 +1,29 @@
+//go:build verif
+
+// Machine-checked contracts for package simple (comment-only; see /verif/DESIGN.md).
+
+package simple
+
+//@ func (*BasicAuth) doAuth
+//@   requires b != nil
+//@   ensures[C35.iff] let md == res(metadata.FromIncomingContext, 0) :: let ok == res(metadata.FromIncomingContext, 1) ::
+//@       (result == nil) <==> (ok && lower(b.username) in md && len(md[lower(b.username)]) >= 1
+//@                             && md[lower(b.username)][0] == b.password)
+//@   ensures[C35.once] called(metadata.FromIncomingContext) == 1 && arg(metadata.FromIncomingContext, 0) == ctx
+
+//@ func (*BasicAuth) UnaryInterceptor
+//@   requires handler != nil && b != nil
+//@   ensures[C35.unary-gate]  called(handler) == (res(BasicAuth.doAuth) == nil ? 1 : 0)
+//@   ensures[C35.unary-auth]  called(BasicAuth.doAuth) == 1 && arg(BasicAuth.doAuth, 0) == b && arg(BasicAuth.doAuth, 1) == ctx
+//@   ensures[C35.unary-deny]  res(BasicAuth.doAuth) != nil ==> result1 != nil
+//@   ensures[C35.unary-pass]  res(BasicAuth.doAuth) == nil ==> result1 == res(handler, 1) && result0 == res(handler, 0) && arg(handler, 0) == ctx && arg(handler, 1) == req
+
+//@ func (*BasicAuth) StreamInterceptor
+//@   requires handler != nil && b != nil && stream != nil
+//@   ensures[C35.stream-gate] called(handler) == (res(BasicAuth.doAuth) == nil ? 1 : 0)
+//@   ensures[C35.stream-auth] called(BasicAuth.doAuth) == 1 && arg(BasicAuth.doAuth, 0) == b && arg(BasicAuth.doAuth, 1) == res(ServerStream.Context)
+//@   ensures[C35.stream-deny] res(BasicAuth.doAuth) != nil ==> result != nil
+//@   ensures[C35.stream-pass] res(BasicAuth.doAuth) == nil ==> result == res(handler)
+
+//@ func (BasicCredential) GetRequestMetadata
+//@   ensures[C35.cred] result1 == nil && card(result0) == 1 && c.username in result0 && result0[c.username] == c.password
